@@ -23,6 +23,7 @@ import (
 	middleware_pb "com.tuntun.rangers/node/src/middleware/pb"
 	"com.tuntun.rangers/node/src/middleware/types"
 	"com.tuntun.rangers/node/src/network"
+	"fmt"
 	"github.com/golang/protobuf/proto"
 	"strconv"
 )
@@ -527,6 +528,9 @@ func unMarshalBlockChainPiece(b []byte) (*blockChainPiece, error) {
 	chainPiece := make([]*types.BlockHeader, 0)
 	for _, header := range message.BlockHeaders {
 		h := types.PbToBlockHeader(header)
+		if h == nil {
+			return nil, fmt.Errorf("incomplete block header in chain piece")
+		}
 		chainPiece = append(chainPiece, h)
 	}
 	topHeader := types.PbToBlockHeader(message.TopHeader)
@@ -584,6 +588,9 @@ func unMarshalBlockMsgResponse(b []byte) (*blockMsgResponse, error) {
 		return nil, e
 	}
 	bmr := blockMsgResponse{IsLastBlock: *message.IsLast, Block: types.PbToBlock(message.Block)}
+	if bmr.Block != nil && bmr.Block.Header == nil {
+		return nil, fmt.Errorf("block without header in block response")
+	}
 	bmr.SignInfo = pbToSignData(*message.SignInfo)
 	return &bmr, nil
 }
@@ -637,6 +644,9 @@ func unMarshalGroupMsgResponse(b []byte) (*groupMsgResponse, error) {
 		return nil, e
 	}
 	bmr := groupMsgResponse{IsLastGroup: *message.IsLast, Group: types.PbToGroup(message.Group)}
+	if bmr.Group != nil && bmr.Group.Header == nil {
+		return nil, fmt.Errorf("group without header in group response")
+	}
 	bmr.SignInfo = pbToSignData(*message.SignInfo)
 	return &bmr, nil
 }
